@@ -63,9 +63,18 @@ class CustomObj:
         self.as_list = as_list
 
     def tagify(self):
+        # a well-behaved Tagifiable: fresh, fully tagified objects on every call
+        import copy as _copy
+
+        def fresh(e):
+            if isinstance(e, Tag):
+                return e.tagify()
+            if isinstance(e, MetadataNode):
+                return _copy.copy(e)
+            return e
         if self.as_list:
-            return TagList(*self.exp)
-        return self.exp[0]
+            return TagList(*[fresh(e) for e in self.exp])
+        return fresh(self.exp[0])
 
 
 class CustomReprObj(CustomObj):
